@@ -158,6 +158,7 @@ type exec struct {
 	commitEvents map[int]int // commit ordinal -> number of write events (counting runs)
 	epoch   int   // clean reopens so far (stores with From > epoch are not mounted yet)
 	crashed bool  // a crash was injected in this run
+	crashV  int64 // ... in the Commit of this version
 	cmpV    int64 // version being compared by compareContent (0 = the working state)
 	cmpLive bool  // comparing the live store between commits
 }
@@ -497,6 +498,7 @@ func (e *exec) commit(s *Step) {
 	if last := e.rs.LastCommitID(); last.Version != id.Version || !bytes.Equal(last.Hash, id.Hash) {
 		e.viol("C12", "last-commit-id", nil, "LastCommitID %d/%X differs from what Commit returned %d/%X", last.Version, last.Hash, id.Version, id.Hash)
 	}
+	e.checkRefHash(newV, id.Hash, "commit")
 	e.m.latest = newV
 	e.m.versions[newV] = snap
 	e.m.hashes[newV] = id.Hash
@@ -553,6 +555,7 @@ func (e *exec) afterCrash(newV int64, snap []content, c simdb.Crash, prevLabel s
 		attrs["fault"] = "io_error"
 	}
 	e.crashed = true
+	e.crashV = newV
 	e.db.Revive()
 	rs, err := e.open(e.db)
 	if err != nil {
@@ -638,10 +641,30 @@ func (e *exec) afterCrash(newV int64, snap []content, c simdb.Crash, prevLabel s
 		if rid.Version != newV {
 			e.viol("C13", "replay-version", attrs, "the re-executed Commit returned version %d, expected %d", rid.Version, newV)
 		}
+		e.checkRefHash(newV, rid.Hash, "recommit")
 		e.log = append(e.log, fmt.Sprintf("recommit %d %x", rid.Version, rid.Hash))
 	default:
 		e.viol("C13", "version-after-crash", attrs, "reopened at version %d after a crash in the Commit of version %d", id.Version, newV)
 		e.dead = true
+	}
+}
+
+// checkRefHash: in a crash variant of an enumerated history every commit - the re-executed one and all later ones -
+// returns the hash the uninterrupted run returned for that version.
+func (e *exec) checkRefHash(v int64, h []byte, what string) {
+	if hashSink != nil {
+		hashSink[v] = append([]byte{}, h...)
+	}
+	if refHashes == nil || !e.crashed {
+		return
+	}
+	want, ok := refHashes[v]
+	if !ok {
+		return
+	}
+	e.res.Stats.C("hashes_compared_with_uninterrupted_run", 1)
+	if !bytes.Equal(want, h) {
+		e.viol("C13", "hash-vs-uninterrupted-run", map[string]string{"at": what, "height1": fmt.Sprint(e.crashV == 1)}, "after a crash in an earlier Commit and recovery, the %s of version %d returned %X; the uninterrupted run of the same history returned %X", what, v, h, want)
 	}
 }
 
